@@ -119,15 +119,19 @@ STEPS_ALL = {
     'grid-25': ['set-zeta-grid', '{db}', '-d', '25'],
     'curvature-1.5': ['set-curvature', '{db}', '1.5'],
     'curvature-0.25': ['set-curvature', '{db}', '0.25'],
+    # steps that fail on their own AFTER part of their work is done
+    'grid-0': ['set-zeta-grid', '{db}', '-d', '0'],
+    'rise-offgrid': ['rise', '{db}', '-r', '0.37'],
+    'recession-offgrid': ['recession', '{db}', '-r', '0.37'],
     'rise': ['rise', '{db}'],
     'rise-ref': ['rise', '{db}', '-r', '4'],
     'recession': ['recession', '{db}'],
     'recession-ref': ['recession', '{db}', '-r', '3'],
 }
 ALPHABET = {
-    'quick': ['classify-A', 'classify-B', 'grid-1', 'grid-0.5',
-              'curvature-1.5', 'rise', 'rise-ref', 'recession',
-              'recession-ref'],
+    'quick': ['classify-A', 'classify-B', 'grid-1', 'grid-0.5', 'grid-0',
+              'curvature-1.5', 'rise', 'rise-ref', 'rise-offgrid',
+              'recession', 'recession-ref', 'recession-offgrid'],
     'thorough': sorted(s_ for s_ in STEPS_ALL if s_ != 'grid-25'),
 }
 
